@@ -5,7 +5,7 @@ M = "xhair.obl.c12"
 
 def x_obligations(tier):
     o = []
-    T = 170 if tier == "quick" else 1500
+    T = 170 if tier == "quick" else 600
     n = 1 if tier == "quick" else 2
     for pre in (["", "h/a/"] if tier == "quick" else ["", "h/a/", "h/s/q1/v1/"]):
         o.append(Obl(f"C12-finder[{pre!r}+{n}]", M, "finder_laws", env={"VF_PRE": pre, "VF_N": str(n), "VF_SEARCH": "h/*/*"}, timeout=T, family="C12-finder",
